@@ -15,7 +15,10 @@ RULE = ('case = (context table, ordered list of extents of concepts mined by clo
         'size-sorted / reversed / seeded shuffles; routines: complete_comparison, construct_lattice_by_spanning_tree '
         '(n_jobs 1 on every order; n_jobs 2,3,5 on the size-sorted order and one shuffle), construct_spanning_tree + '
         '_get_chains (chain checker), order_extents_comparison (complete concept sets only), add_concept of every mined '
-        'concept not in the list and remove_concept of every listed concept whose removal keeps a greatest and a least one '
+        'concept not in the list and remove_concept of every listed concept whose removal keeps a greatest and a least one, '
+        'each with inplace=True (the passed list / dictionaries must hold the result afterwards) and with inplace=False as a '
+        'history of three calls with different candidates on the SAME base objects (each result judged against the covers '
+        'of the base, and the base list / relation deep-compared with a snapshot after every call) '
         '(also lists whose greatest/least is not the lattice top/bottom, so that the new-top / new-bottom branches run); '
         'is_concepts_sorted=True only on linear extensions of the order; then seeded random pruned lists up to 30 concepts '
         'from 6x6 tables (14x8 in the thorough tier). non-trivial = at least one concept strictly between top and bottom; '
@@ -31,7 +34,9 @@ EXPLANATION = ('the children dictionary is pinned uniquely by the property (sets
                'order of a batch), the add/remove helpers, and the index translation of order_extents_comparison; the driver '
                'additionally evaluates the sweep model under several set-iteration orders and batch schedules (variants_agree) '
                'and applies the Lean chain checker to the implementation\'s own tree and chains')
-ASSUMPTIONS = ['the concepts of a list come from one context, are pairwise different, and extents are duplicate-free',
+ASSUMPTIONS = ['add_concept / remove_concept with inplace=False leave the caller\'s list and relation dictionaries unchanged; with '
+               'inplace=True the passed objects hold the result (checked on the real code, not part of the Lean theorems: the model is pure)',
+               'the concepts of a list come from one context, are pairwise different, and extents are duplicate-free',
                'the list contains a greatest and a least concept (only complete_comparison is also run without)',
                'is_concepts_sorted=True is only used on lists in which every strict superconcept precedes its subconcepts',
                'n_jobs >= 1',
@@ -132,21 +137,42 @@ def impl(c):
                            'chains': [[int(x) for x in ch] for ch in chains]}}
         if r == 'oe':
             return {'ok': canon_dict(lca.order_extents_comparison(cs), n)}
+        # add / remove: a history on ONE base (list + relation): the first candidate, and with inplace=False the
+        # further candidates `more` are tried against the very same objects, which must stay intact.
         sub, sup = py_covers(c['exts'])
         subd = {i: set(s) for i, s in enumerate(sub)}
         supd = {i: set(s) for i, s in enumerate(sup)}
         t, b = top_bottom(c['exts']) if c['passtb'] else (None, None)
-        if r == 'add':
-            new = mined(c['rows'])[tuple(c['new'])]
-            out = lca.add_concept(new, cs, subd, supd, t, b, inplace=c['inplace'])
-            m = n + 1
-        else:
-            out = lca.remove_concept(c['ci'], cs, subd, supd, t, b, inplace=c['inplace'])
-            m = n - 1
-        cs2, sub2, sup2, t2, b2 = out
-        return {'ok': {'exts': [sorted(int(g) for g in x.extent_i) for x in cs2],
-                       'sub': canon_dict(sub2, m), 'sup': canon_dict(sup2, m),
-                       'top': None if t2 is None else int(t2), 'bot': None if b2 is None else int(b2)}}
+        snap = ([sorted(int(g) for g in x.extent_i) for x in cs], canon_dict(subd, n), canon_dict(supd, n))
+        cands = [c['new'] if r == 'add' else c['ci']] + (list(c.get('more', [])) if not c['inplace'] else [])
+        calls = []
+        for cand in cands:
+            try:
+                if r == 'add':
+                    out = lca.add_concept(mined(c['rows'])[tuple(cand)], cs, subd, supd, t, b, inplace=c['inplace'])
+                    m = n + 1
+                else:
+                    out = lca.remove_concept(cand, cs, subd, supd, t, b, inplace=c['inplace'])
+                    m = n - 1
+                cs2, sub2, sup2, t2, b2 = out
+                res = {'ok': {'exts': [sorted(int(g) for g in x.extent_i) for x in cs2],
+                              'sub': canon_dict(sub2, m), 'sup': canon_dict(sup2, m),
+                              'top': None if t2 is None else int(t2), 'bot': None if b2 is None else int(b2)}}
+            except ImplTimeout:
+                raise
+            except Exception as e:
+                res = {'err': exc_name(e)}
+                m = n
+            now = ([sorted(int(g) for g in x.extent_i) for x in cs], canon_dict(subd, len(cs)), canon_dict(supd, len(cs)))
+            if c['inplace']:
+                # the objects that were passed in must now hold the result
+                res['passed_hold_result'] = 'ok' in res and now == (res['ok']['exts'], res['ok']['sub'], res['ok']['sup'])
+            else:
+                res['base_intact'] = now == snap
+                if not res['base_intact']:
+                    res['base_now'] = dict(exts=now[0], sub=now[1], sup=now[2])
+            calls.append(res)
+        return {'calls': calls}
     except Exception as e:
         return {'err': exc_name(e)}
     finally:
@@ -179,9 +205,10 @@ def requests(c, io):
     sub, sup = py_covers(c['exts'])
     t, b = top_bottom(c['exts']) if c['passtb'] else (None, None)
     base = dict(cs=c['exts'], sub=sub, sup=sup, top=t, bot=b, ord='asc')
+    cands = [c['new'] if r == 'add' else c['ci']] + (list(c.get('more', [])) if not c['inplace'] else [])
     if r == 'add':
-        return [dict(op='C12.add', new=c['new'], **base)]
-    return [dict(op='C12.rem', ci=c['ci'], **base)]
+        return [dict(op='C12.add', new=cand, **base) for cand in cands]
+    return [dict(op='C12.rem', ci=cand, **base) for cand in cands]
 
 
 def judge(c, io, rep):
@@ -237,20 +264,35 @@ def _judge(c, io, rep):
         if q['model'] != q['spec'] or q['keys'] != list(range(len(c['exts']))):
             return dict(ok=False, kind='harness', detail=f'model {q["model"]} keys {q["keys"]} != spec {q["spec"]}')
         return dict(ok=True)
-    # add / rem
-    spec = q['spec']
-    if r == 'add':
-        want_exts = [sorted(e) for e in c['exts']] + [sorted(c['new'])]
-        if not q.get('in_ok', True):
-            return dict(ok=False, kind='harness', detail='input relation handed to add_concept is not the cover relation')
-    else:
-        want_exts = [sorted(e) for i, e in enumerate(c['exts']) if i != c['ci']]
-    want = {'ok': dict(exts=want_exts, sub=spec['sub'], sup=spec['sup'], top=spec['top'], bot=spec['bot'])}
-    if io != want:
-        return dict(ok=False, kind='property', detail=f'{r} returned {io}, expected {want}')
-    m = q['model']
-    if 'err' in m or dict(sub=m['sub'], sup=m['sup'], top=m['top'], bot=m['bot']) != spec:
-        return dict(ok=False, kind='harness', detail=f'model {m} != spec {spec}')
+    # add / rem: every call of the history is judged against the spec of the SAME base
+    if 'calls' not in io:
+        return dict(ok=False, kind='property', detail=f'{r} raised {io}')
+    cands = [c['new'] if r == 'add' else c['ci']] + (list(c.get('more', [])) if not c['inplace'] else [])
+    for k, (cand, res, q) in enumerate(zip(cands, io['calls'], rep)):
+        spec = q['spec']
+        if r == 'add':
+            want_exts = [sorted(e) for e in c['exts']] + [sorted(cand)]
+            if not q.get('in_ok', True):
+                return dict(ok=False, kind='harness', detail='input relation handed to add_concept is not the cover relation')
+        else:
+            want_exts = [sorted(e) for i, e in enumerate(c['exts']) if i != cand]
+        want = dict(exts=want_exts, sub=spec['sub'], sup=spec['sup'], top=spec['top'], bot=spec['bot'])
+        where = f'{r}({cand}, inplace={c["inplace"]}), call {k + 1} on the same base'
+        if res.get('ok') != want:
+            shown = {kk: vv for kk, vv in res.items() if kk in ('ok', 'err')}
+            return dict(ok=False, kind='property', detail=f'{where} returned {shown}, expected {want}')
+        if c['inplace'] and not res.get('passed_hold_result'):
+            return dict(ok=False, kind='property',
+                        detail=f'{where}: the list / dictionaries passed in do not hold the returned result afterwards')
+        if not c['inplace'] and not res.get('base_intact'):
+            return dict(ok=False, kind='property',
+                        detail=f'{where}: the caller\'s concepts / relation were modified although inplace=False: '
+                               f'{res.get("base_now")}')
+        m = q['model']
+        if 'err' in m or dict(sub=m['sub'], sup=m['sup'], top=m['top'], bot=m['bot']) != spec:
+            return dict(ok=False, kind='harness', detail=f'model {m} != spec {spec}')
+    if len(io['calls']) != len(cands):
+        return dict(ok=False, kind='harness', detail='history length mismatch')
     return dict(ok=True)
 
 
@@ -319,30 +361,29 @@ def routine_cases(rows, order, stream, par_jobs=(), swis=(None,), tree=True):
 
 
 def addrem_cases(rows, all_exts, order, stream, rng):
-    """every admissible add and remove on the list `order` (the list itself has a greatest and a least concept)"""
+    """every admissible add and remove on the list `order` (the list itself has a greatest and a least concept), each in
+    both `inplace` modes; the inplace=False case continues with up to two further candidates on the SAME base objects"""
     inlist = {tuple(e) for e in order}
+    adds = [new for new in all_exts if tuple(new) not in inlist and has_top_bottom(order + [new])]
+    rems = [ci for ci in range(len(order)) if has_top_bottom(order[:ci] + order[ci + 1:])] if len(order) >= 3 else []
     k = 0
-    for new in all_exts:
-        if tuple(new) in inlist:
-            continue
-        if has_top_bottom(order + [new]):
+    for routine, key, cands in (('add', 'new', adds), ('rem', 'ci', rems)):
+        for i, cand in enumerate(cands):
             k += 1
-            yield dict(stream=stream, rows=rows, exts=order, routine='add', new=new, passtb=bool(k % 2), inplace=bool(k % 3))
+            base = dict(stream=stream, rows=rows, exts=order, routine=routine, passtb=bool(k % 2))
+            base[key] = cand
+            yield dict(base, inplace=True)
+            more = [cands[(i + j) % len(cands)] for j in (1, 2)]
+            yield dict(base, inplace=False, more=more)      # the same candidate again is a legitimate second call
             if len(order) <= 4:
-                yield dict(stream=stream, rows=rows, exts=order, routine='add', new=new, passtb=not (k % 2), inplace=True)
-    if len(order) >= 3:
-        for ci in range(len(order)):
-            rest = order[:ci] + order[ci + 1:]
-            if has_top_bottom(rest):
-                k += 1
-                yield dict(stream=stream, rows=rows, exts=order, routine='rem', ci=ci, passtb=bool(k % 2), inplace=bool(k % 3))
-                if len(order) <= 4:
-                    yield dict(stream=stream, rows=rows, exts=order, routine='rem', ci=ci, passtb=not (k % 2), inplace=True)
+                yield dict(base, inplace=bool(k % 3), passtb=not (k % 2), more=more[:1])
 
 
-def exhaustive(tables, rng, stream, par_all, swis, inner_cap):
+def exhaustive(tables, rng, stream, par_all, swis, inner_cap, sample=None):
     for rows, exts in families(tables):
         if len(exts) < 2:
+            continue
+        if sample is not None and rng.random() >= sample:
             continue
         top, bot, inner = exts[0], exts[-1], exts[1:-1]
         # order_extents_comparison: complete concept sets only
@@ -431,12 +472,15 @@ def corpus_cases():
 def gen(tier, seed, boost=False):
     rng = random.Random(seed * 1000003 + 1201)
     yield from corpus_cases()
-    thorough = tier == 'thorough' or boost
-    swis = (None, 1e-6, 1e-5, 1e-3) if tier == 'thorough' else (None,)
-    yield from exhaustive(G.tables_upto(3, 3), rng, 'exhaustive', par_all=thorough, swis=swis, inner_cap=6)
-    if thorough:
-        big = (rows for rows in G.tables_upto(4, 4, cells=12) if len(rows) > 3 or len(rows[0]) > 3)
+    full = tier == 'thorough'
+    swis = (None, 1e-6, 1e-5, 1e-3) if full else (None,)
+    yield from exhaustive(G.tables_upto(3, 3), rng, 'exhaustive', par_all=full, swis=swis, inner_cap=6)
+    big = (rows for rows in G.tables_upto(4, 4, cells=12) if len(rows) > 3 or len(rows[0]) > 3)
+    if full:
         yield from exhaustive(big, rng, 'exhaustive-large', par_all=False, swis=(None,), inner_cap=6)
+    elif boost:
+        # quick tier with drifted anchors / failed proof obligation: a bounded seeded sample of the n*m <= 12 scope
+        yield from exhaustive(big, rng, 'exhaustive-large', par_all=False, swis=(None,), inner_cap=6, sample=0.05)
     if tier == 'quick':
         yield from random_cases(rng, 60 * (3 if boost else 1), 6, 6, 30, 0.25, (None,))
     else:
@@ -453,7 +497,7 @@ def nontrivial(c):
 
 def key(c):
     return [c['exts'], c['routine'], c.get('sorted'), c.get('njobs'), c.get('swi'), c.get('new'), c.get('ci'),
-            c.get('passtb'), c.get('inplace')]
+            c.get('passtb'), c.get('inplace'), c.get('more')]
 
 
 def branch(c, io, rep):
@@ -464,14 +508,16 @@ def branch(c, io, rep):
         out.append(f'{r}:n_jobs={c["njobs"]}' + (':swi' if c.get('swi') else ''))
     if r == 'tree' and 'ok' in io and isinstance(io['ok'].get('chains'), list):
         out.append('chains:%d' % min(len(io['ok']['chains']), 6))
-    if r in ('add', 'rem') and 'ok' in io:
+    if r in ('add', 'rem') and io.get('calls') and 'ok' in io['calls'][0]:
         t, b = top_bottom(c['exts'])
+        first = io['calls'][0]['ok']
         if r == 'add':
             n = len(c['exts'])
-            out.append('add:new-top' if io['ok']['top'] == n else 'add:new-bottom' if io['ok']['bot'] == n else 'add:inner')
+            out.append('add:new-top' if first['top'] == n else 'add:new-bottom' if first['bot'] == n else 'add:inner')
         else:
             out.append('rem:top' if c['ci'] == t else 'rem:bottom' if c['ci'] == b else 'rem:inner')
         out.append(f'{r}:' + ('tb-given' if c['passtb'] else 'tb-None'))
+        out.append(f'{r}:inplace' if c['inplace'] else f'{r}:copy:calls={len(io["calls"])}')
     return out
 
 
@@ -479,6 +525,12 @@ def signature(c, io, rep, v):
     r = c['routine']
     mode = 'par' if c.get('njobs', 1) > 1 else 'seq'
     what = ('err:' + io['err']) if isinstance(io, dict) and 'err' in io else 'wrong'
+    if r in ('add', 'rem'):
+        mode = 'inplace' if c.get('inplace') else 'copy'
+        if 'modified although inplace=False' in v.get('detail', ''):
+            what = 'caller-state-modified'
+        elif 'do not hold the returned result' in v.get('detail', ''):
+            what = 'passed-objects-stale'
     return f"C12:{r}:{'sorted' if c.get('sorted') else 'unsorted'}:{mode}:{v.get('kind')}:{what}"
 
 
@@ -499,11 +551,21 @@ def shrink(c):
             d['ci'] = c['ci'] - (1 if i < c['ci'] else 0)
             if not has_top_bottom(rest[:d['ci']] + rest[d['ci'] + 1:]) or len(rest) < 3:
                 continue
-        if r == 'add' and not has_top_bottom(rest + [c['new']]):
+        if r == 'add' and not all(has_top_bottom(rest + [x]) and x not in rest for x in [c['new']] + list(c.get('more', []))):
             continue
+        if r == 'rem' and c.get('more'):
+            mm = [x - (1 if i < x else 0) for x in c['more'] if x != i]
+            if len(mm) != len(c['more']) or not all(has_top_bottom(rest[:x] + rest[x + 1:]) for x in mm):
+                continue
+            d['more'] = mm
         if c.get('sorted') and not is_linear_extension(rest):
             continue
         yield d
+    if c.get('more'):
+        for j in range(len(c['more'])):
+            d = dict(c)
+            d['more'] = c['more'][:j] + c['more'][j + 1:]
+            yield d
     if c.get('swi'):
         d = dict(c)
         d.pop('swi')
